@@ -88,9 +88,11 @@ def f64ctxRow (r : EntryRow) : Bool :=
   (r.aval == 0 || r.aval == 64) && (r.prefer == 0 || r.prefer == 64)
 
 /-- Flag off and no float64 handed in ⇒ no float64 payload, no double-precision type — every
-    entry point × top graph / function-or-loop body × keep-float32 on/off. -/
+    entry point × top graph / function-or-loop body × keep-float32 on/off. For a literal the
+    float64-ness of the Python value itself does not count (only its aval does). -/
 theorem entry_single_no_double :
-    ∀ r ∈ entryTable, r.flag = false → r.aval ≠ 64 → r.prefer ≠ 64 → r.src ≠ 64 →
+    ∀ r ∈ entryTable, r.flag = false → r.aval ≠ 64 → r.prefer ≠ 64 →
+      (r.src ≠ 64 ∨ (r.entry = "lit" ∧ r.aval ≠ 0)) →
       r.out ≠ 64 ∧ isDouble r.code = false := by
   decide +kernel
 
